@@ -159,6 +159,8 @@ def run(ctx):
     cap_reg(ctx, sm)
     borrow(ctx)
     enum_presentation_rule(ctx, dm)
+    from .c03 import newtype_rule
+    newtype_rule(ctx)
 
 
 def enum_presentation_rule(ctx, dm=None):
